@@ -390,8 +390,7 @@ func init() {
 		More: []Edit{{File: "ytypes/leaf.go", Old: "// sanitizeGNMI decodes the GNMI TypedValue", New: "var decimal64ScaleTable = [...]int64{1, 10, 100, 1000, 10000, 100000, 1000000, 10000000, 100000000, 1000000000, 10000000000, 100000000000, 1000000000000, 10000000000000, 100000000000000, 1000000000000000, 10000000000000000, 100000000000000000, 1000000000000000000}\n\n// sanitizeGNMI decodes the GNMI TypedValue"}},
 		Expect: "table-index#1:decimal64ScaleTable"})
 	addMutant(Mutant{Name: "c26-listkey-name-not-uniquified", Property: "C26", File: "gogen/unordered_list.go",
-		Old: "Name:     genutil.MakeNameUnique(listElem.ListKeys[keName].Name, usedKeyElemNames),", New: "Name:     listElem.ListKeys[keName].Name,",
-		More: []Edit{{File: "gogen/unordered_list.go", Old: "\tusedKeyElemNames := make(map[string]bool)\n", New: "\tusedKeyElemNames := make(map[string]bool)\n\t_ = genutil.MakeNameUnique(\"\", usedKeyElemNames)\n"}},
+		Old: "\t\t\tkeyElemNames[fName] = genutil.MakeNameUnique(key.Name, usedFieldNames)\n", New: "\t\t\tkeyElemNames[fName] = key.Name\n\t\t\tusedFieldNames[key.Name] = true\n",
 		Expect: "yangListFieldToGoType:goStructField#1:Name"})
 	addMutant(Mutant{Name: "c33-prefix-strip-hoisted", Property: "C33", File: "gogen/goelements.go",
 		Old: "\tif isTypedef {\n\t\tif strings.Contains(value, \":\") {\n\t\t\tvalue = strings.Split(value, \":\")[1]\n\t\t}\n\t\tswitch args.yangType.Kind {", New: "\tif strings.Contains(value, \":\") {\n\t\tvalue = strings.Split(value, \":\")[1]\n\t}\n\tif isTypedef {\n\t\tswitch args.yangType.Kind {", Expect: "yangDefaultValueToGo:rewrite#1"})
@@ -413,4 +412,9 @@ func init() {
 		Old: "\tswitch {\n\tcase schema.IsLeaf():\n\t\treturn unmarshalLeaf(schema, parent, value, enc, opts...)", New: "\tif a, ok := value.([]interface{}); ok && len(a) == 0 && schema.IsLeafList() {\n\t\treturn nil\n\t}\n\tswitch {\n\tcase schema.IsLeaf():\n\t\treturn unmarshalLeaf(schema, parent, value, enc, opts...)", Expect: "unmarshalGeneric:return#"})
 	addMutant(Mutant{Name: "c34-keys-named-apart-from-fields", Property: "C34", File: "gogen/unordered_list.go",
 		Old: "\t\tgenutil.MakeNameUnique(listElem.Fields[fName].Name, usedFieldNames)\n", New: "\t\t_ = listElem.Fields[fName].Name\n", Expect: "key-field#1:name"})
+}
+
+func init() {
+	addMutant(Mutant{Name: "c26-orderedmap-name-unguarded", Property: "C26", File: "gogen/unordered_list.go",
+		Old: "\t\tif names[structName] {\n\t\t\tstructName = fmt.Sprintf(\"%s_%s_YANGOrderedMap\", parent.Name, listFieldName)\n\t\t\tif names[structName] {", New: "\t\tif len(names) < 0 {\n\t\t\tstructName = fmt.Sprintf(\"%s_%s_YANGOrderedMap\", parent.Name, listFieldName)\n\t\t\tif len(names) < 0 {", Expect: "ordered-map-name"})
 }
